@@ -732,16 +732,26 @@ def interval_join_replay(V, wd, tier):
         rs = [e for it in right for e in script(it)]
         if iters > 1:
             continue_ok = True
-        nodes = [{"id": "l", "op": "src", "kind": "script", "repl": "one", "scripts": [ls]},
-                 {"id": "r", "op": "src", "kind": "script", "repl": "one", "scripts": [rs]},
-                 {"id": "j", "op": "ijoin", "lower": lower, "upper": upper, "in": ["l", "r"]},
-                 {"id": "k", "op": "sink", "kind": "collect_vec", "in": ["j"]}]
+        keyed = i % 3 == 2
+        km = rng.choice([1, 2, 3])
+        if keyed:
+            nodes = [{"id": "l", "op": "src", "kind": "script", "repl": "one", "scripts": [ls]},
+                     {"id": "r", "op": "src", "kind": "script", "repl": "one", "scripts": [rs]},
+                     {"id": "gl", "op": "group_by", "m": km, "in": ["l"]}, {"id": "gr", "op": "group_by", "m": km, "in": ["r"]},
+                     {"id": "j", "op": "kijoin", "lower": lower, "upper": upper, "in": ["gl", "gr"]},
+                     {"id": "d", "op": "drop_key", "in": ["j"]},
+                     {"id": "k", "op": "sink", "kind": "collect_vec", "in": ["d"]}]
+        else:
+            nodes = [{"id": "l", "op": "src", "kind": "script", "repl": "one", "scripts": [ls]},
+                     {"id": "r", "op": "src", "kind": "script", "repl": "one", "scripts": [rs]},
+                     {"id": "j", "op": "ijoin", "lower": lower, "upper": upper, "in": ["l", "r"]},
+                     {"id": "k", "op": "sink", "kind": "collect_vec", "in": ["j"]}]
         jid = f"ij{i}"
         jobs.append({"id": jid, "prog": {"nodes": nodes}, "cfg": {"mode": "local", "par": rng.choice([1, 2])},
                      "batch": rng.choice(["single", "default", "fixed:2"]), "trace": False, "perturb_us": 0,
                      "hang_ms": 15000})
-        meta[jid] = {"ev": "case", "id": jid, "op": "ijoin", "variant": "", "ml": lower, "mr": upper,
-                     "left": left, "right": right}
+        meta[jid] = {"ev": "case", "id": jid, "op": "kijoin" if keyed else "ijoin", "variant": "", "ml": lower,
+                     "mr": upper, "km": km, "left": left, "right": right}
     # iterations of unsynchronised free-running sources are outside the environment assumption: one iteration only
     jobs = [j for j in jobs if len(meta[j["id"]]["left"]) == 1]
     results, _ = run_jobs(jobs, wd, timeout=1200)
@@ -779,7 +789,7 @@ def C08(V, tier):
         r = tlc_check(f"{SPEC}/comp/HashJoin.tla", f"{SPEC}/mc/{cfg}.cfg", wdm, cfg, workers=4, timeout=3000)
         if not r["ok"]:
             raise ToolError(f"model check {cfg}: {r['invariant_violated']} fails on the MODEL")
-        require_coverage(r, ["LeftItem", "RightItem", "SideEnd", "Restart"], cfg)
+        require_coverage(r, ["LeftItem", "RightItem", "Restart"], cfg)
         V.add_model(r, cfg)
     r = tlc_check(f"{SPEC}/comp/HashJoin.tla", f"{SPEC}/mc/HashJoin_seedC08.cfg", wdm, "seedC08", workers=2, coverage=False)
     V.coverage["HashJoin_seedC08_still_fails"] = r["invariant_violated"] == "NoExtra"
